@@ -21,7 +21,7 @@ LEVEL_NOTE = ("Trusted: Coq kernel, extraction, driver.ml, harness (cell proposa
               "numpy/scipy as executors. Axioms: stdlib real-number axioms + Classical_Prop.classic (Reals, Ratan). A polynomial for "
               "which neither a cover nor a witness is found is counted as undecided and reported in the evidence, not as a violation.")
 RULE = ("every generator with ensure_bounded=True: degrees 2..30 (quick: <= 20; monomial <= 20), shape parameters as C14, max_scale in "
-        "{default, 0.3, 0.5, 1.0}, both bases; cosine / sine with bound 0.5(1+eps), 1/x with 0.5; distinct by JSON; non-trivial = always")
+        "{default, 0.3, 0.5, 1.0}, both bases; cosine / sine with bound 0.5(1+eps) (tau random and tau at which an in-range Bessel coefficient 2J_n(tau), n <= 0.6 tau, is below eps/10), 1/x with 0.5; distinct by JSON; non-trivial = always")
 TRUSTED = ["Coq 8.16.1 kernel", "extraction (ExtrOcamlBasic, ExtrOcamlZBigInt) + driver.ml + zarith", "harness (cell proposal untrusted; impl_runner.py, impl_handlers5.py)",
            "numpy/scipy as executors of the implementation"]
 ASSUME = ["returned doubles are exact dyadic rationals; bound M = max_scale*(1+1e-3) (relative 1e-3 of the statement)"]
@@ -61,6 +61,12 @@ def run(ctx):
                     if cheb and a["degree"] >= 19:
                         c["cheb_samples"] = a["degree"] + 21
                 cases.append(c)
+        # cos / sin at tau where an in-range Bessel coefficient is tiny (the Jacobi-Anger terms are not monotone for n < tau)
+        for name in ("cos", "sin"):
+            for eps in (0.1, 0.3, 0.01, 0.05):
+                for tau in G.taus_near_inrange_bessel_zero(rng, name == "sin", eps, (5 if eps == 0.1 else 3) if quick else 40):
+                    cases.append({"fn": "gen", "name": name, "args": G.enc_args({"tau": tau, "epsilon": eps}), "ensure_bounded": True,
+                                  "return_scale": False, "chebyshev_basis": True, "timeout": 300, "directed": "in-range Bessel zero"})
         # 1/x over its whole (kappa, epsilon) table, Chebyshev basis (high-accuracy requests included)
         for kappa, eps in ((1.5, 0.3), (2, 0.1), (3, 0.3), (3, 0.01), (4, 1e-3), (5, 0.1), (8, 0.05), (3, 1e-3), (5, 1e-3), (4, 1e-4), (8, 1e-2),
                            (1.2, 0.3), (1.15, 0.2), (1.4, 0.6), (1.3, 0.3), (1.05, 0.1), (1.25, 0.05)):      # incl. b = int(kappa^2 log(kappa/eps)) = 1, 2, 3
